@@ -363,7 +363,10 @@ func genHybridQuery(rng *rand.Rand, h *hybridModel, vg *vecGen, tg *textGen) hyb
 		if useG {
 			for g := 0; g < 1+rng.IntN(2); g++ {
 				var grp []modelFilter
-				for i := 0; i < 1+rng.IntN(2); i++ {
+				if rng.IntN(3) == 0 {
+					grp = append(grp, orGroupMarker()) // FilterGroup{Logic: OR}
+				}
+				for i := 0; i < 1+rng.IntN(3); i++ {
 					grp = append(grp, genLeaf(rng, h.meta, false))
 				}
 				q.Groups = append(q.Groups, grp)
@@ -399,11 +402,7 @@ func applyHybridQuery(s comet.HybridSearch, q hybridQuery) comet.HybridSearch {
 	if len(q.Groups) > 0 {
 		var gs []*comet.FilterGroup
 		for _, g := range q.Groups {
-			fg := &comet.FilterGroup{Logic: comet.AND}
-			for _, f := range g {
-				fg.Filters = append(fg.Filters, f.impl)
-			}
-			gs = append(gs, fg)
+			gs = append(gs, cometGroup(g))
 		}
 		s = s.WithMetadataGroups(gs...)
 	}
